@@ -4,6 +4,7 @@ import Chess.Lemmas.ScoreRange
 import Chess.Lemmas.FnsEquiv.Position
 import Chess.Lemmas.FnsEquiv.Move
 import Chess.Lemmas.FnsEquiv.Search
+import Chess.Lemmas.FnsEquiv.Hash
 
 /-!
 # C15 — unchecked fast paths stay within bounds
@@ -142,3 +143,9 @@ theorem named after the function. -/
 #print axioms Chess.FnsEquiv.Position_new_unsafe_eq
 #print axioms Chess.FnsEquiv.Move_index_history_eq
 #print axioms Chess.FnsEquiv.move_score_unwrap_safe
+
+/-! Second batch of translated functions (C15.T2): `Position::new_assert` (its assertion is exactly `Pos.inBoard`), `Position::add_unsafe`, and the indices of the two unchecked key lookups. -/
+#print axioms Chess.FnsEquiv.Position_new_assert_eq
+#print axioms Chess.FnsEquiv.Position_add_unsafe_eq
+#print axioms Chess.FnsEquiv.GameState_hash_eq
+#print axioms Chess.FnsEquiv.Piece_hash_eq
